@@ -10,7 +10,7 @@ verus! {
 //@include shims/cursor.rs
 //@include spec/hash.rs
 //@enum BSVErrors @ src/errors/mod.rs
-//@enum OpCodes @ src/script/op_codes.rs clone copy partialeq eq
+//@enum OpCodes @ src/script/op_codes.rs clone copy partialeqspec
 //@enumtable OpCodes @ src/script/op_codes.rs from_u8
 //@enum SigningHash @ src/ecdsa/mod.rs clone copy partialeq eq
 //@include shims/asref.rs
@@ -28,6 +28,12 @@ verus! {
 //@enum MatchToken @ src/script/script_template.rs clonespec
 //@enum MatchDataTypes @ src/script/script_template.rs clonespec
 //@struct ScriptTemplate @ src/script/script_template.rs clone
+//@struct Hash @ src/hash/mod.rs clone
+//@struct HashCache @ src/transaction/sighash.rs clone
+//@struct TxIn @ src/transaction/txin.rs clone
+//@struct TxOut @ src/transaction/txout.rs clone
+//@struct Transaction @ src/transaction/mod.rs clone
+//@struct MatchCriteria @ src/transaction/match_criteria.rs clone default
 //@include spec/template.rs
 impl PublicKey {
 //@stub PublicKey::from_bytes_impl
@@ -38,6 +44,19 @@ impl Signature {
 impl Script {
 //@fn Script::match_impl
 //@fn Script::test_impl
+//@fn Script::is_match
+}
+impl TxIn {
+    #[verifier::external_body] pub(crate) fn get_finalised_script_impl(&self) -> (r: Result<Script, BSVErrors>)
+        ensures (r is Ok) == (finalised_bits(*self) is Some), r is Ok ==> r->Ok_0.0@ == finalised_bits(*self)->Some_0 { unimplemented!() }
+}
+impl Transaction {
+//@fn Transaction::is_matching_output
+//@fn Transaction::match_output
+//@fn Transaction::match_outputs
+//@fn Transaction::is_matching_input
+//@fn Transaction::match_input
+//@fn Transaction::match_inputs
 }
 } // verus!
 fn main() {}
